@@ -490,14 +490,30 @@ func c32Scenario(c *vctx, rng *vrng, num int) error {
 	if _, _, err := src.cli(initArgs...); err != nil {
 		return fmt.Errorf("init src: %w", err)
 	}
+	// half of the scenarios create the source snapshots in a zone with a non-whole-hour offset and read them
+	// back in UTC: times parsed from JSON then carry freshly allocated *Location values, so only
+	// Time.Equal (not ==) recognises a copy as similar
+	origLocal := time.Local
+	if num%2 == 1 {
+		time.Local = time.FixedZone("", 5*3600+1800)
+		c.Hist("source-zone=+05:30")
+	}
 	nsn := 2 + rng.intn(3)
 	for i := 0; i < nsn; i++ {
-		c32Write(dataDir, rng, 2+rng.intn(4))
+		// sometimes the data is not touched between two backups: two snapshots (different host/tags) share
+		// one tree, so within one copy batch the later one has nothing left to copy (sizeBlobs == 0) while
+		// the data it needs is still unflushed
+		if i == 0 || !(rng.chance(45) || (num < 2 && i == 1)) {
+			c32Write(dataDir, rng, 2+rng.intn(4))
+		} else {
+			c.Hist("same-tree-pair")
+		}
 		args := []string{"backup", dataDir, "--host", rng.pick("h1", "h2"), "--tag", rng.pick("a", "b", "a,b")}
 		if _, _, err := src.cli(args...); err != nil {
 			return fmt.Errorf("backup: %w", err)
 		}
 	}
+	time.Local = origLocal
 	dstMode := rng.pick("plain", "same-chunker", "v1", "same-chunker-prepopulated")
 	dargs := []string{"init"}
 	switch dstMode {
